@@ -233,10 +233,12 @@ class BasisTree(Tree):
                         elementary_nodes.append(TreeNodeBasis(basis_list[i : i + j]))
                         i += j
 
+        qn_size = elementary_nodes[0].qn_size
+
         # recursive tree construction
         def recursion(elementary_nodes_: List[TreeNodeBasis]) -> TreeNodeBasis:
             nonlocal dummy_i
-            node = TreeNodeBasis([BasisDummy((dummy_label, dummy_i))])
+            node = TreeNodeBasis([BasisDummy((dummy_label, dummy_i), sigmaqn=[[0] * qn_size])])
             dummy_i += 1
             if len(elementary_nodes_) <= tree_order:
                 node.add_child(elementary_nodes_)
@@ -292,14 +294,15 @@ class BasisTree(Tree):
                 return
             node1 = TreeNodeBasis(basis_list_[:1])
             parent.add_child(node1)
-            node2 = TreeNodeBasis([BasisDummy((t3ns_label, dummy_i))])
+            node2 = TreeNodeBasis([BasisDummy((t3ns_label, dummy_i), sigmaqn=[[0] * qn_size])])
             dummy_i += 1
             node1.add_child(node2)
             for partition_ in approximate_partition(basis_list_[1:], 2):
                 recursion(node2, partition_)
 
         dummy_i = 0
-        root = TreeNodeBasis([BasisDummy((t3ns_label, dummy_i))])
+        qn_size = basis_list[0].sigmaqn.shape[1]
+        root = TreeNodeBasis([BasisDummy((t3ns_label, dummy_i), sigmaqn=[[0] * qn_size])])
         dummy_i += 1
         for partition in approximate_partition(basis_list, 3):
             recursion(root, partition)
